@@ -72,10 +72,22 @@ def split_fmt(fmt):
         order = fmt[0]
         fmt = fmt[1:]
     out = []
+    count = ''
     for ch in fmt:
-        if ch.isdigit() or ch.isspace():
-            raise Undecided('struct format with counts: %r' % fmt)
-        out.append(order + ch)
+        if ch.isspace():
+            continue
+        if ch.isdigit():
+            count += ch
+            continue
+        if count:
+            if ch in 'sp':
+                raise Undecided('struct format with a string count: %r' % fmt)
+            out.extend([order + ch] * int(count))  # '8I' is eight 'I'
+            count = ''
+        else:
+            out.append(order + ch)
+    if count:
+        raise Undecided('struct format ends in a count: %r' % fmt)
     return out
 
 
